@@ -10,6 +10,8 @@
 (*   C21  malformed input is answered with the RFC 4271 section 6 NOTIFICATION *)
 (*   C22  OPEN negotiation admits only valid sessions                          *)
 (*   C19/C20 malformed UPDATEs install nothing, valid ones are applied per NLRI*)
+(*   C12  (server level) a policy replaced through the server takes effect in  *)
+(*        whatever state the session is                                        *)
 EXTENDS Naturals, Sequences, FiniteSets, TLC, Json
 
 CONSTANTS Opens,       \* OPEN classes offered by the peer (subset of DOMAIN OpenDef)
@@ -17,6 +19,8 @@ CONSTANTS Opens,       \* OPEN classes offered by the peer (subset of DOMAIN Ope
           Garbage,     \* malformed-header classes (subset of DOMAIN HdrDef)
           Stops,       \* administrative / timer events used: subset of {"ManualStop", "HoldExpires", "WriteFails"} \cup DOMAIN NotifDef
           LocalCfg,    \* name of the local peer configuration (DOMAIN CfgDef)
+          Pols,        \* policies the operator may put in place through the server ({} = none): subset of {"accept", "reject"}
+          Origs,       \* prefixes another source may put into the Loc-RIB ({} = none): subset of {"o1", "o2"}
           MaxDepth, MaxSessions
 
 VARIABLES st,          \* "none" (no connection yet) | "OpenSent" | "OpenConfirm" | "Established" | "Idle"
@@ -26,8 +30,9 @@ VARIABLES st,          \* "none" (no connection yet) | "OpenSent" | "OpenConfirm
           out,         \* sequence of messages the speaker wrote on the current connection
           hold,        \* negotiated hold time (0 until negotiated)
           nsess,       \* connections accepted so far
+          pol,         \* [imp, exp: the peer's import / export policy, orig: prefixes in the Loc-RIB from another source]
           hist
-vars == <<st, conn, attached, adjIn, out, hold, nsess, hist>>
+vars == <<st, conn, attached, adjIn, out, hold, nsess, pol, hist>>
 
 (* local configurations *)
 CfgDef == [ ebgp   |-> [ibgp |-> FALSE, hold |-> 90, role |-> "none",     strict |-> FALSE, addpath |-> FALSE, rrc |-> "no"],
@@ -125,12 +130,21 @@ UpdDef == [ annA      |-> U(TRUE, {N("a", 0)}, {}, {}),
 -----------------------------------------------------------------------------
 Msg(k, c, s) == [kind |-> k, code |-> c, sub |-> s]
 Notif(c, s) == Msg("NOTIFICATION", c, s)
-St == [st |-> st', conn |-> conn', attached |-> attached', adjin |-> adjIn', out |-> out', hold |-> hold', nsess |-> nsess']
-Log(r) == hist' = Append(hist, r @@ [s |-> St])
+(* what the policies mean for the tables (C12 at server level): the Loc-RIB holds the other source's prefixes and, while the  *)
+(* session is attached and the import policy accepts, the session's; the Adj-RIB-Out holds the other source's prefixes while *)
+(* the session is attached and the export policy accepts (the session's own routes are never sent back to it)                *)
+LocOf(att, ai, pl) == {[pfx |-> x, pid |-> 0] : x \in pl.orig} \cup (IF att /\ pl.imp = "accept" THEN ai ELSE {})
+OutOf(att, pl) == IF att /\ pl.exp = "accept" THEN pl.orig ELSE {}
+St == [st |-> st', conn |-> conn', attached |-> attached', adjin |-> adjIn', out |-> out', hold |-> hold', nsess |-> nsess',
+       imp |-> pol'.imp, exp |-> pol'.exp, loc |-> LocOf(attached', adjIn', pol'), adjout |-> OutOf(attached', pol')]
+LogP(r) == hist' = Append(hist, r @@ [s |-> St])
+Log(r) == UNCHANGED pol /\ LogP(r)
 
 Init == /\ st = "none" /\ conn = "none" /\ attached = FALSE /\ adjIn = {} /\ out = <<>> /\ hold = 0 /\ nsess = 0
+        /\ pol = [imp |-> "accept", exp |-> "accept", orig |-> {}]
         /\ hist = << [a |-> "Config", cfg |-> L, cfgname |-> LocalCfg,
-                      s |-> [st |-> "none", conn |-> "none", attached |-> FALSE, adjin |-> {}, out |-> <<>>, hold |-> 0, nsess |-> 0]] >>
+                      s |-> [st |-> "none", conn |-> "none", attached |-> FALSE, adjin |-> {}, out |-> <<>>, hold |-> 0, nsess |-> 0,
+                             imp |-> "accept", exp |-> "accept", loc |-> {}, adjout |-> {}]] >>
 
 (* every way back to Idle: optional NOTIFICATION, connection closed, routes gone *)
 ToIdle(msgs) ==
@@ -207,7 +221,17 @@ ManualStop ==
     /\ ToIdle(<<Notif(6, 0)>>)
     /\ Log([a |-> "ManualStop"])
 
-Step == \/ Connect
+(* the operator replaces the peer's import / export policy through the server (BGPServer.ReplaceImportFilterChain /          *)
+(* ReplaceExportFilterChain), in whatever state the session is; another source adds / removes a Loc-RIB route               *)
+Same == UNCHANGED <<st, conn, attached, adjIn, out, hold, nsess>>
+SetImport(p) == p # pol.imp /\ pol' = [pol EXCEPT !.imp = p] /\ Same /\ LogP([a |-> "SetImport", p |-> p])
+SetExport(p) == p # pol.exp /\ pol' = [pol EXCEPT !.exp = p] /\ Same /\ LogP([a |-> "SetExport", p |-> p])
+Originate(x) == x \notin pol.orig /\ pol' = [pol EXCEPT !.orig = @ \cup {x}] /\ Same /\ LogP([a |-> "Originate", x |-> x])
+Unoriginate(x) == x \in pol.orig /\ pol' = [pol EXCEPT !.orig = @ \ {x}] /\ Same /\ LogP([a |-> "Unoriginate", x |-> x])
+
+Step == \/ \E p \in Pols : SetImport(p) \/ SetExport(p)
+        \/ \E x \in Origs : Originate(x) \/ Unoriginate(x)
+        \/ Connect
         \/ \E o \in Opens : RecvOpen(o)
         \/ RecvKeepalive
         \/ \E u \in Updates : RecvUpdate(u)
@@ -233,6 +257,6 @@ LeavingEstablished == [][(st = "Established" /\ st' # "Established") => (adjIn' 
 ErrorsAreNotified == [][(st' = "Idle" /\ st \in {"OpenSent", "OpenConfirm", "Established"} /\ Len(out') > Len(out))
                           => out'[Len(out')].kind = "NOTIFICATION"]_vars
 
-View == <<st, conn, attached, adjIn, out, hold, nsess>>
+View == <<st, conn, attached, adjIn, out, hold, nsess, pol>>
 Emit == PrintT("BEH " \o ToJson(hist'))
 =============================================================================
